@@ -655,8 +655,8 @@ fn short(s: &str) -> String { if s.len() > 160 { format!("{}…({} chars)", &s[.
 // ------------------------------------------------------------------------------------------------
 // generator
 // ------------------------------------------------------------------------------------------------
-/// `respect`: stay inside the hypothesis of the as-is partial theorem for the set cache
-/// (`GetSafe`): when a set is read, its staging log holds at most one operation per element, and a
+/// `respect` (only with `--restricted`; the default stream is unrestricted since F10 and F17 were fixed in
+/// /repo): stay inside the region `getSafe` in which the code before those fixes was correct: when a set is read, its staging log holds at most one operation per element, and a
 /// read that may fetch a set whose store image exceeds the threshold has no staged removal of one of
 /// the first threshold+1 store elements.  The generator simulates the store image and a superset of the
 /// log to guarantee this; the driver re-checks it on the model state (`assert-safe`).
@@ -908,7 +908,7 @@ fn main() {
         let text = if raw.trim_start().starts_with('{') { extract_case(&raw).expect("replay json has no \"case\"") } else { raw };
         if !text.starts_with("scenario") { cases.push(Case::parse(&text).expect("unparsable case")); }
     } else {
-        let unrestricted = a.rest.iter().any(|x| x == "--unrestricted");
+        let unrestricted = !a.rest.iter().any(|x| x == "--restricted");
         let n = a.n.unwrap_or(if a.tier == "quick" { 150 } else { 1500 });
         let mut rng = Rng::new(a.seed);
         for i in 0..n { let big = i % 5 == 4; cases.push(gen_case(&mut rng, big, !unrestricted)); }
